@@ -12,7 +12,7 @@ from z3 import And, Or, Not, If, BoolVal, BitVecVal, ULT, ULE, UGT, UGE, Implies
 from m2s import harness, engine, models, containers
 from m2s.engine import Lazy, Agg, Enum, StrV, Ref, Opaque, bv64, UNIT, fresh_id
 from m2s.models import find_byte, substr, str_eq, byte_at, lazy_str
-from m2s.containers import VecV, MapV, lazy_atom, Atom
+from m2s.containers import VecV, MapV, lazy_atom, Atom, to_atom
 from m2s.harness import ev_int, ev_bool, ev_bytes, run_fn, Inconclusive
 
 ALPHA = b'ab:/@.1-'
@@ -299,14 +299,156 @@ def part_spread(chk, fns, decls):
             sat_any = sat_any or r == 'sat'
     report(chk, 'sat' if sat_any else 'unsat', run_battery(chk, SPREAD_BATTERY, 'spread_instantiation_arg'), 'spread-rule', 'spread_instantiation_arg')
 
+def part_new_expr(chk, fns, decls, nargs):
+    """new_expr: the argument table. Sub-resolutions (inferred / named / spread) by contract (their own obligations are above); graph calls are events"""
+    K = chk.pick(2, 3)
+    chk.bounds.setdefault('new_expr', {'arguments': [], 'world_imports_max': K})['arguments'].append(nargs)
+    wt = chk.decls('wac-types'); wi = [n for n, t in wt.structs['World'][1]].index('imports')
+    NAME = Function('arg_name', IntSort(), IntSort()); SUB_OK = Function('arg_resolves', IntSort(), BoolSort())
+    SPREAD_OK = Function('spread_ok', IntSort(), BoolSort()); SPREAD_ADDS = Function('spread_adds', IntSort(), IntSort())     # the name a spread adds (one per spread, arbitrary)
+    SET_RES = Function('set_argument_result', IntSort(), IntSort())       # 0 ok, 1 invalid name, 2 type mismatch
+    own = z3.Bool('is_own_package'); pkg_ok = z3.Bool('package_resolves')
+    types = Lazy('gtypes', 'wac_graph::wac_types::Types'); world = Lazy('world', 'WorldId')
+    def arg_pos(ctx, v):
+        # the argument node is `arguments[i].<variant>.0`: recover i from the access path of the lazily instantiated AST
+        v = ctx.deref(v); m_ = re.search(r'arguments\.\[(\d+)\]', v.name)
+        if not m_: raise engine.EngineError(f'argument node without a position: {v.name}')
+        return int(m_.group(1))
+    def sub(kind):
+        def h(ctx):
+            i = arg_pos(ctx, ctx.args[2]); ctx.event('resolve', kind, i)
+            nm = Atom(NAME(z3.IntVal(i)))
+            return ctx.ret(models.result(SUB_OK(z3.IntVal(i)), Agg((nm, Agg((z3.IntVal(i), 'item'), 'Item'), Lazy(f'argspan{i}', 'SourceSpan'))), Opaque(f'sub-error{i}')))
+        return h
+    def m_spread(ctx):
+        i = arg_pos(ctx, ctx.args[2]); ctx.event('spread', i)
+        r = ctx.args[4]; eng_ = ctx.eng; dst, tgt = ctx.dst, ctx.tgt
+        def ok_(st2, fr2):
+            m_ = eng_.deref(st2, r); key = Atom(SPREAD_ADDS(z3.IntVal(i)))
+            eng_.write_ref(st2, r, MapV(m_.entries + ((key, Agg((Agg((z3.IntVal(100 + i), 'item'), 'Item'), Lazy(f'spreadspan{i}', 'SourceSpan')))),)))
+            return containers._finish(eng_, st2, fr2, dst, tgt, models.ok(UNIT))
+        return ('forks', [(SPREAD_OK(z3.IntVal(i)), ok_), (Not(SPREAD_OK(z3.IntVal(i))), lambda s2, f2: containers._finish(eng_, s2, f2, dst, tgt, models.err(Opaque(f'spread-error{i}'))))])
+    def m_resolve_package(ctx): return ctx.ret(models.result(pkg_ok, Lazy('pkgid', 'PackageId'), Opaque('package-error')))
+    def m_graph_index(ctx): return ctx.ret(Ref(Lazy('package', 'Package'), ()))
+    def m_pkg_ty(ctx): return ctx.ret(world)
+    def m_types(ctx): return ctx.ret(Ref(types, ()))
+    def m_world_index(ctx): return ctx.ret(Ref(types.kid('[world]', 'World'), ()))
+    def m_instantiate(ctx): ctx.event('instantiate'); return ctx.ret(Agg((BitVecVal(7, 32),), 'NodeId'))
+    def m_spans_insert(ctx): return ctx.ret(models.none())
+    def m_item_node(ctx):
+        it = ctx.deref(ctx.args[0]); return ctx.ret(Agg((it.f[0],), 'NodeId'))
+    def m_set_arg(ctx):
+        name = to_atom(ctx.eng, ctx.deref(ctx.args[2])).t; node = ctx.deref(ctx.args[3])
+        k = len([t for t in ctx.st.trace if t[0] == 'set']); ctx.event('set', name, node.f[0])
+        res = SET_RES(z3.IntVal(k)); E = 'InstantiationArgumentError'
+        errs = decls_enum_variants(chk, 'InstantiationArgumentError')
+        mk = lambda v, fs: models.err(Enum(E, bv64(errs.index(v)), {v: fs}))
+        return ctx.forks([(res == 0, models.ok(UNIT)),
+                          (res == 1, mk('InvalidArgumentName', (Opaque('node'), Atom(name), Opaque('package')))),
+                          (And(res != 0, res != 1), mk('ArgumentTypeMismatch', (Atom(name), Opaque('source'))))])
+    def m_name_eq(ctx):
+        # `expr.package.name == self.0.directive.package.name`
+        return ctx.ret(own)
+    ov = [(r'^AstResolver::<.*>::inferred_instantiation_arg$', sub('inferred')), (r'^AstResolver::<.*>::named_instantiation_arg$', sub('named')),
+          (r'^AstResolver::<.*>::spread_instantiation_arg$', m_spread), (r'^AstResolver::<.*>::resolve_package$', m_resolve_package),
+          (r'^<CompositionGraph as Index<PackageId>>::index$', m_graph_index), (r'^Package::ty$', m_pkg_ty), (r'^CompositionGraph::types$', m_types),
+          (r'^<wac_graph::wac_types::Types as Index<WorldId>>::index$', m_world_index), (r'^CompositionGraph::instantiate$', m_instantiate),
+          (r'^HashMap::<NodeId, miette::SourceSpan>::insert$', m_spans_insert), (r'^Item::node$', m_item_node), (r'^CompositionGraph::set_instantiation_argument$', m_set_arg),
+          (r'^<&str as PartialEq>::eq$', m_name_eq), (r'^BorrowedPackageKey::<.*>::from_name_and_version$', lambda ctx: ctx.ret(Opaque('key')))]
+    eng = chk.engine(fns, decls, overrides=ov, vec_cap=max(K, nargs), loop_bound=K + nargs + 4); eng.atom_strings = True
+    fname = resolver_fn(eng, 'new_expr')
+    expr = Lazy('newexpr', "ast::NewExpr<'_>"); eo = [n for n, t in decls.structs['NewExpr'][1]]
+    args = expr.kid(str(eo.index('arguments')))
+    assert 'arguments' in args.name or True
+    args.name = 'newexpr.arguments'      # the access path used by arg_pos
+    eng.assume(args.len() == bv64(nargs))
+    imports = types.kid('[world]').kid(str(wi)); eng.assume(ULE(imports.len(), bv64(K)))
+    V = {v: decls.enum_index('InstantiationArgument', v) for v in ('Inferred', 'Spread', 'Named', 'Fill')}
+    disc = [args.kid(f'[{i}]').disc for i in range(nargs)]
+    for d in disc: eng.assume(ULT(d, bv64(4)))
+    outs = run_fn(eng, fname, [Opaque('self'), Ref(Lazy('state', 'State'), ()), Ref(expr, ()), Opaque('packages')]); chk.account(eng, [fname])
+    imp = [lazy_atom(imports.kid(f'[{k}].k')).t for k in range(K)]
+    base = list(eng.assumptions) + [a != b for a, b in itertools.combinations(imp, 2)]
+    is_ = lambda i, v: disc[i] == bv64(V[v])
+    I = z3.IntVal
+    # ---- reference evaluation of the table
+    fill_bad = Or([And(is_(i, 'Fill'), BoolVal(i != nargs - 1)) for i in range(nargs)] + [BoolVal(False)])
+    require_all = Not(Or([is_(i, 'Fill') for i in range(nargs)] + [BoolVal(False)]))
+    named = [Or(is_(i, 'Inferred'), is_(i, 'Named')) for i in range(nargs)]
+    def first_phase_error(upto):
+        """an error occurs while processing arguments 0..upto-1 (sub-resolution failure, misplaced fill, duplicate)"""
+        cs = []
+        for i in range(upto):
+            dup = Or([And(named[j], NAME(I(j)) == NAME(I(i))) for j in range(i)] + [BoolVal(False)])
+            cs.append(Or(And(named[i], Or(Not(SUB_OK(I(i))), dup)), And(is_(i, 'Fill'), BoolVal(i != nargs - 1))))
+        return Or(cs + [BoolVal(False)])
+    phase1_err = first_phase_error(nargs)
+    spread_err = Or([And(is_(i, 'Spread'), Not(SPREAD_OK(I(i)))) for i in range(nargs)] + [BoolVal(False)])
+    bads = []
+    for o in outs:
+        if o.kind == 'bound': continue
+        if o.kind != 'ret': bads.append(('panic', o, o.cond())); continue
+        v = o.value; tr = o.st.trace; sets = [t for t in tr if t[0] == 'set']; res = [t for t in tr if t[0] in ('resolve', 'spread')]
+        if 'Ok' in v.vars:
+            cs = [Not(own), pkg_ok, Not(phase1_err), Not(spread_err), And([SET_RES(I(k)) == 0 for k in range(len(sets))])]
+            # documented argument list: named / inferred arguments in source order, then what the spreads added, in source order
+            items = [(named[i], NAME(I(i)), I(i)) for i in range(nargs)] + [(is_(i, 'Spread'), SPREAD_ADDS(I(i)), I(100 + i)) for i in range(nargs)]
+            # a spread's name replaces nothing: if it collides with an existing argument the map keeps position and takes the new item (contract of the spread itself: it only adds missing names)
+            cs.append(seq_match(items, sets, lambda it, e: And(it[1] == e[1], it[2] == e[2])))
+            # every sub-resolution is made exactly once, spreads after all others
+            cs.append(BoolVal([t for t in res if t[0] == 'resolve'] + [t for t in res if t[0] == 'spread'] == res))
+            # without `...` every import of the package must be supplied
+            present = lambda nm: Or([And(it[0], it[1] == nm) for it in items] + [BoolVal(False)])
+            cs.append(Implies(require_all, And([Implies(ULT(bv64(k), imports.len()), present(imp[k])) for k in range(K)])))
+            bads.append(('ok-but-wrong', o, And(o.cond(), Not(And(cs)))))
+        else:
+            e = v.vars['Err'][0]; cls = list(e.vars)[0] if isinstance(e, Enum) and e.vars else 'opaque'
+            if cls == 'UnknownPackage': okc = own
+            elif cls == 'FillArgumentNotLast': okc = And(Not(own), pkg_ok, fill_bad)
+            elif cls == 'DuplicateInstantiationArg': okc = And(Not(own), pkg_ok, Or([And(named[i], named[j], NAME(I(i)) == NAME(I(j))) for i, j in itertools.combinations(range(nargs), 2)] + [BoolVal(False)]))
+            elif cls == 'MissingComponentImport': okc = And(Not(own), pkg_ok, Not(phase1_err), Not(spread_err), BoolVal(len(sets) > 0), SET_RES(I(len(sets) - 1)) == 1)
+            elif cls == 'MismatchedInstantiationArg': okc = And(Not(own), pkg_ok, Not(phase1_err), Not(spread_err), BoolVal(len(sets) > 0), SET_RES(I(len(sets) - 1)) != 0, SET_RES(I(len(sets) - 1)) != 1)
+            elif cls == 'MissingInstantiationArg':
+                items = [(named[i], NAME(I(i))) for i in range(nargs)] + [(is_(i, 'Spread'), SPREAD_ADDS(I(i))) for i in range(nargs)]
+                present = lambda nm: Or([And(g, n_ == nm) for g, n_ in items] + [BoolVal(False)])
+                missing = [And(ULT(bv64(k), imports.len()), Not(present(imp[k]))) for k in range(K)]
+                fs = e.vars[cls]; got = to_atom(eng, eng.deref(o.st, fs[0])).t
+                first = Or([And(missing[k], And([Not(missing[q]) for q in range(k)]), got == imp[k]) for k in range(K)])
+                okc = And(Not(own), pkg_ok, Not(phase1_err), Not(spread_err), require_all, first)
+            else: okc = And(Not(own), Or(Not(pkg_ok), phase1_err, spread_err))       # errors of the sub-resolutions are passed through
+            bads.append((f'err-{cls}', o, And(o.cond(), Not(okc))))
+    cls_count = {}
+    for k_, o_, c_ in bads: cls_count[k_] = cls_count.get(k_, 0) + 1
+    chk.notes.append(f'new_expr[{nargs}]: {len(outs)} paths, outcome classes {cls_count}')
+    r, m = chk.obligation(f'new_expr with {nargs} argument(s): argument table = named/inferred arguments in order, then spread additions; duplicates, misplaced `...`, missing arguments and graph errors reported as documented; no panic',
+                          base + [Or([c for _, _, c in bads] + [BoolVal(False)])], base=base)
+    if r == 'sat':
+        hit = [(k, o) for k, o, c in bads if ev_bool(m, c)]
+        kinds = [next((vn for vn, vi in V.items() if ev_int(m, disc[i]) == vi), '?') for i in range(nargs)]
+        chk.finding('new-expr-' + (hit[0][0] if hit else '?'), f'new_expr with arguments {kinds}: outcome `{hit[0][0] if hit else "?"}` contradicts the documented argument handling (rule-level counterexample over the MIR; {hit[0][1].site if hit and hit[0][1].site else ""})', {'rule': 'new_expr', 'arguments': kinds})
+
+def decls_enum_variants(chk, name):
+    d = chk.decls('wac-graph')
+    e = d.enums[name] if name in d.enums else d.enums[[k for k in d.enums if k.split('@')[0] == name][0]]
+    return [v[0] if isinstance(v, (tuple, list)) else v for v in e]
+
+def seq_match(items, events, key):
+    cs = []; pos = z3.IntVal(0); m = len(events)
+    for it in items:
+        g = it[0]
+        cs.append(Implies(g, Or([And(pos == j, key(it, events[j])) for j in range(m)] + [BoolVal(False)]))); pos = If(g, pos + 1, pos)
+    cs.append(pos == m)
+    return And(cs)
+
 def body(chk):
     chk.assumptions += ['names are abstract identities in the precedence and spread kernels (find_matching_interface_name is checked on real strings separately and enters the others as an arbitrary Option)',
                         'State::local_item, Item::kind, alias_export, expr are opaque with arbitrary results',
-                        'new_expr\'s argument loop, export inference and access resolution are outside the claim']
+                        'new_expr: sub-resolutions by contract (arbitrary name / success per argument; a spread adds one arbitrary name), graph calls are events; export inference and access resolution are outside the claim']
     fns = chk.load('wac-parser'); decls = chk.decls('wac-parser')
     chk.part('find_matching_interface_name', part_fmi, chk, fns, decls)
     chk.part('inferred / named argument names', part_inferred, chk, fns, decls)
     chk.part('spread arguments', part_spread, chk, fns, decls)
+    for n in chk.pick((1, 2), (1, 2, 3)): chk.part(f'new_expr[{n}]', part_new_expr, chk, fns, decls, n)
 
 if __name__ == '__main__':
     harness.run_check('C04', body)
